@@ -1,6 +1,7 @@
 package main
 
 import (
+	"math"
 	"fmt"
 	"strings"
 
@@ -24,18 +25,25 @@ func itName(t lineintersection.Type) string {
 }
 
 func emitSeg(e *Emitter, a, b, c, d geom.Coord) {
-	e.emit("C12.seg", fmt.Sprintf("(%s %s %s %s)", sxCoord(a), sxCoord(b), sxCoord(c), sxCoord(d)), guard(func() string {
-		// private copies: the property under test here is the result, not purity (C17)
-		cp := func(x geom.Coord) geom.Coord { return append(geom.Coord{}, x...) }
-		res := lineintersector.LineIntersectsLine(lineintersector.RobustLineIntersector{}, cp(a), cp(b), cp(c), cp(d))
-		nr := lineintersector.LineIntersectsLine(lineintersector.NonRobustLineIntersector{}, cp(a), cp(b), cp(c), cp(d))
+	in := fmt.Sprintf("(%s %s %s %s)", sxCoord(a), sxCoord(b), sxCoord(c), sxCoord(d))
+	done := false
+	var res, nr lineintersection.Result
+	// private copies of the arguments (the result may legitimately share storage with them, and
+	// purity is C17); the returned result is kept and rendered again after later calls
+	e.emitR("C12.seg", in, func() string {
+		if !done {
+			cp := func(x geom.Coord) geom.Coord { return append(geom.Coord{}, x...) }
+			res = lineintersector.LineIntersectsLine(lineintersector.RobustLineIntersector{}, cp(a), cp(b), cp(c), cp(d))
+			nr = lineintersector.LineIntersectsLine(lineintersector.NonRobustLineIntersector{}, cp(a), cp(b), cp(c), cp(d))
+			done = true
+		}
 		pts := res.Intersection()
 		ps := make([]string, len(pts))
 		for i, p := range pts {
 			ps[i] = sxCoord(p[:2])
 		}
 		return fmt.Sprintf("(%s (%s) %v)", itName(res.Type()), strings.Join(ps, " "), nr.HasIntersection())
-	}))
+	})
 }
 
 func genC12(r *Rng, e *Emitter, n int) {
@@ -119,6 +127,13 @@ func genC12(r *Rng, e *Emitter, n int) {
 			for _, p := range []geom.Coord{a, b, c, d} {
 				p[0] = ulps(p[0]*sc+17.3, r.Intn(5)-2)
 				p[1] = ulps(p[1]*sc-4.7, r.Intn(5)-2)
+				// the property's window: ordinates are zero or of magnitude within [1e-100, 1e100]
+				// (a few ulps from an exact zero would be a denormal, whose products underflow)
+				for k := 0; k < 2; k++ {
+					if p[k] != 0 && math.Abs(p[k]) < 1e-100 {
+						p[k] = 0
+					}
+				}
 			}
 			if a[0] == b[0] && a[1] == b[1] || c[0] == d[0] && c[1] == d[1] {
 				continue
